@@ -1,0 +1,109 @@
+//go:build verif
+
+// Machine-checked contracts for this package (guard: build tag `verif`; this file contains comments only).
+// Read by /verif/bin/govc: each `//@ unit` section is one verification unit (the functions matching `filter`,
+// verified against the contracts of the section; callees are used through their contracts only).
+
+package casketfile
+
+//@ unit parser_chain props=C10,C11 filter=`parser\)\.(doImport|directive|directives|blockContents|addresses|snippetTokens)$|Dispenser\)\.(Next|NextArg|Val)$`
+//@ func (*Dispenser).Next
+//@   requires d != nil
+//@   modifies Dispenser.cursor
+//@   ensures [step] d.cursor == old(d.cursor) || d.cursor == old(d.cursor) + 1
+//@   ensures [result] result == (d.cursor == old(d.cursor) + 1)
+//@   ensures [in_range] old(d.cursor) >= -1 ==> (result ==> (0 <= d.cursor && d.cursor < len(d.tokens)))
+//@   ensures [stuck] !result ==> old(d.cursor) >= len(d.tokens) - 1
+
+//@ func (*Dispenser).NextArg
+//@   requires d != nil
+//@   modifies Dispenser.cursor
+//@   ensures [step] d.cursor == old(d.cursor) || d.cursor == old(d.cursor) + 1
+//@   ensures [in_range] old(d.cursor) >= 0 ==> (result ==> (1 <= d.cursor && d.cursor < len(d.tokens)))
+//@   ensures [result] result == (d.cursor == old(d.cursor) + 1)
+
+//@ func (*Dispenser).Val
+//@   pure reads Dispenser, E:github.com/tmpim/casket/casketfile.Token
+//@   ensures (d.cursor < 0 || d.cursor >= len(d.tokens)) ==> result == ""
+//@ func (*Dispenser).isNewLine
+//@   pure reads Dispenser
+
+//@ func (*parser).snippetTokens
+//@   requires p != nil && p.cursor >= -1
+//@   modifies Dispenser.cursor
+//@   loop 1 invariant p.cursor >= -1
+
+//@ func (*Dispenser).File
+//@   pure reads Dispenser
+//@ func (*Dispenser).Err
+//@   pure reads Dispenser
+//@   ensures result != nil
+//@ func (*Dispenser).Errf
+//@   pure reads Dispenser
+//@   ensures result != nil
+//@ func (*Dispenser).ArgErr
+//@   pure reads Dispenser
+//@   ensures result != nil
+//@ func (*Dispenser).EOFErr
+//@   pure reads Dispenser
+//@   ensures result != nil
+//@ func (*Dispenser).SyntaxErr
+//@   pure reads Dispenser
+//@   ensures result != nil
+//@ func replaceEnvVars
+//@   pure
+//@   ensures s == "" ==> result == ""
+//@ func (*parser).validDirective
+//@   pure reads parser
+//@ func (*parser).doSingleImport
+//@   requires p != nil
+
+//@ func (*parser).doImport
+//@   requires p != nil && 0 <= p.cursor && p.cursor < len(p.tokens)
+//@   modifies Dispenser.cursor, Dispenser.tokens
+//@   ensures [cursor_back] result == nil ==> (p.cursor == old(p.cursor) && p.cursor >= 0)
+//@   ensures [cursor_nonneg] p.cursor >= 0
+
+//@ func (*parser).directive
+//@   requires p != nil && 0 <= p.cursor && p.cursor < len(p.tokens) && p.block.Tokens != nil
+//@   modifies Dispenser.cursor, Dispenser.tokens, MV:map[string][]github.com/tmpim/casket/casketfile.Token, MD:map[string][]github.com/tmpim/casket/casketfile.Token, E:github.com/tmpim/casket/casketfile.Token
+//@   ensures [cursor_ok] p.cursor >= -1
+//@   loop 1 invariant p.cursor >= -1
+
+//@ func (*parser).directives
+//@   requires p != nil && p.cursor >= -1 && p.block.Tokens != nil
+//@   modifies Dispenser.cursor, Dispenser.tokens, MV:map[string][]github.com/tmpim/casket/casketfile.Token, MD:map[string][]github.com/tmpim/casket/casketfile.Token, E:github.com/tmpim/casket/casketfile.Token
+//@   ensures [cursor_ok] p.cursor >= -1
+//@   loop 1 invariant p.cursor >= -1 && p.block.Tokens != nil
+
+//@ func (*parser).openCurlyBrace
+//@   pure reads Dispenser
+//@ func (*parser).closeCurlyBrace
+//@   pure reads Dispenser
+//@ func (*parser).blockContents
+//@   requires p != nil && p.cursor >= 0 && p.block.Tokens != nil
+//@   modifies Dispenser.cursor, Dispenser.tokens, MV:map[string][]github.com/tmpim/casket/casketfile.Token, MD:map[string][]github.com/tmpim/casket/casketfile.Token, E:github.com/tmpim/casket/casketfile.Token
+//@   ensures [cursor_ok] p.cursor >= -1
+//@ func (*parser).addresses
+//@   requires p != nil && 0 <= p.cursor && p.cursor < len(p.tokens)
+//@   modifies Dispenser.cursor, Dispenser.tokens, ServerBlock.Keys, parser.eof
+//@   ensures [cursor_ok] p.cursor >= 0
+//@   loop 1 invariant p.cursor >= 0
+
+//@ unit lexer_next props=C10 filter=`casketfile\.lexer\)\.next$`
+//@ ghost remaining int
+//@ invariant remaining >= 0
+//@ extern (*bufio.Reader).ReadRune
+//@   modifies ghost:remaining
+//@   ensures (result2 == nil ==> (old(remaining) > 0 && remaining == old(remaining) - 1)) && (result2 != nil ==> remaining == old(remaining))
+//@ extern unicode.IsSpace
+//@   pure
+
+//@ func (*lexer).next
+//@   may_panic
+//@   requires l != nil && l.reader != nil
+//@   modifies ghost:remaining, lexer.line, lexer.token, Token.Text
+//@   ensures [consumes_input] remaining <= old(remaining)
+//@   ensures [false_means_exhausted] !result ==> remaining == old(remaining) || remaining < old(remaining)
+//@   loop 1 invariant remaining <= old(remaining) && l != nil && l.reader != nil
+//@   loop 1 decreases remaining
